@@ -152,7 +152,7 @@ fn run(ctx: &Ctx) -> Part {
             if quick && tr.is_real() && i % 3 != 0 {
                 continue;
             }
-            bjobs.push(Cfg { model: ModelId::Builtin(i as u8), tr, win: Some((3, 3, 1, 2)), orient: (i % 8) as u8, bgr: i % 2 == 1, invert: false, refresh: 0, rst: false });
+            bjobs.push(Cfg { model: ModelId::Builtin(i as u8), tr, win: Some((3, 3, 1, 2)), orient: (i % 8) as u8, bgr: i % 2 == 1, invert: false, refresh: 0, rst: false, flags: 0 });
         }
     }
     let nb = bjobs.len();
